@@ -256,7 +256,7 @@ impl<T: Debug + PartialEq, F: RealNumber, D: Distance<T, F>> CoverTree<T, F, D> 
 
         let point = &self.data[0];
         let idx = 0;
-        let mut max_dist = -F::one();
+        let mut max_dist = F::zero();
 
         for i in 1..self.data.len() {
             let dist = self.distance.distance(point, &self.data[i]);
@@ -270,13 +270,27 @@ impl<T: Debug + PartialEq, F: RealNumber, D: Distance<T, F>> CoverTree<T, F, D> 
             }
         }
 
-        self.root = self.batch_insert(
+        let root = self.batch_insert(
             idx,
             self.get_scale(max_dist),
             self.get_scale(max_dist),
             &mut point_set,
             &mut consumed_set,
         );
+
+        // a data set of a single point yields a bare leaf; the searches descend through
+        // children only, so the point becomes the only child of its own root
+        self.root = if root.children.is_empty() {
+            Node {
+                idx,
+                max_dist: F::zero(),
+                parent_dist: F::zero(),
+                children: vec![root],
+                _scale: 100,
+            }
+        } else {
+            root
+        };
     }
 
     fn batch_insert(
